@@ -914,6 +914,7 @@ class Exec:
                     raise Unsupported(f'no model for callee {n!r}   [{callee[:160]}]')
                 self.cov_prims.add(n)
             self._primcache[callee] = p
+        self.cur_callee = callee
         return p(self, args)
 
     def _disambiguate(self, cands, args, callee):
